@@ -12,15 +12,27 @@ PROP_INVS = {"ObsAtomic", "ObsRetained", "ObsOutside", "ObsCount", "ObsWarned", 
 def model(chk, thorough):
     for op in dops.OPS:
         for nolock in ("FALSE", "TRUE"):
-            cfg = lib.os.path.join(lib.BUILD, f"MC_DedupeOps_{op}_{nolock}.cfg")
-            with open(cfg, "w") as f:
-                f.write(f'CONSTANTS\n  Op = "{op}"\n  NoLock = {nolock}\n  MaxFaults = 2\n  Collision = {"TRUE" if op == "move" else "FALSE"}\n'
-                        "SPECIFICATION Spec\nINVARIANTS Atomic RetainedUntouched OthersUntouched FailedRestored SucceededReplaced NoOverwrite SourceLast HappyPath CollisionKept\n"
-                        "CHECK_DEADLOCK FALSE\n")
-            res = lib.run_tlc("MC_DedupeOps.tla", cfg, workers=4, timeout=600)
-            chk.add_tlc(f"MC_DedupeOps[{op},nolock={nolock}]", res)
-            if res.violation:
-                chk.violation(f"C05/model {op} {res.violation}", "the specification itself violates " + res.violation, {"tlc": res.output[-3000:]})
+            for same in ("FALSE", "TRUE"):      # TRUE: the second dropped path is a hard link of the retained file (group --match-links)
+                cfg = lib.os.path.join(lib.BUILD, f"MC_DedupeOps_{op}_{nolock}_{same}.cfg")
+                with open(cfg, "w") as f:
+                    f.write(f'CONSTANTS\n  Op = "{op}"\n  NoLock = {nolock}\n  MaxFaults = 2\n  Collision = {"TRUE" if op == "move" else "FALSE"}\n  SameIno = {same}\n  TruncOnOpen = FALSE\n'
+                            "SPECIFICATION Spec\nINVARIANTS Atomic RetainedUntouched OthersUntouched FailedRestored SucceededReplaced NoOverwrite SourceLast HappyPath CollisionKept\n"
+                            "CHECK_DEADLOCK FALSE\n")
+                res = lib.run_tlc("MC_DedupeOps.tla", cfg, workers=4, timeout=600)
+                chk.add_tlc(f"MC_DedupeOps[{op},nolock={nolock},hardlinked={same}]", res)
+                if res.violation:
+                    chk.violation(f"C05/model {op} {res.violation}", "the specification itself violates " + res.violation, {"tlc": res.output[-3000:]})
+    # the specification must be able to tell: `dedupe` opening the file to replace with O_TRUNC is invisible as long as the inodes differ
+    # (every invariant holds), and destroys the retained copy when the path to replace is a hard link of it
+    for same, want in (("FALSE", None), ("TRUE", "RetainedUntouched")):
+        cfg = lib.os.path.join(lib.BUILD, f"MC_DedupeOps_trunc_{same}.cfg")
+        with open(cfg, "w") as f:
+            f.write(f'CONSTANTS\n  Op = "reflink"\n  NoLock = FALSE\n  MaxFaults = 2\n  Collision = FALSE\n  SameIno = {same}\n  TruncOnOpen = TRUE\n'
+                    "SPECIFICATION Spec\nINVARIANTS Atomic RetainedUntouched OthersUntouched FailedRestored SucceededReplaced HappyPath\nCHECK_DEADLOCK FALSE\n")
+        res = lib.run_tlc("MC_DedupeOps.tla", cfg, workers=4, timeout=600)
+        chk.add_tlc(f"MC_DedupeOps[reflink, deviation O_TRUNC on open, hardlinked={same}: " + ("must be refuted]" if want else "harmless]"), res)
+        if res.violation != want:
+            raise lib.ToolError(f"vacuity: MC_DedupeOps with TruncOnOpen, SameIno={same}: expected {want}, got {res.violation}")
 
 
 def plans_for(op, facts, thorough, tdev):
@@ -69,6 +81,10 @@ def main(tier):
         scns.append(dops.Scn(op, threads=1))
         if op == "move":
             scns.append(dops.Scn(op, threads=1, tdev="other", size=150000))
+        if op in ("reflink", "hard") or thorough:
+            # a group reported with --match-links: the last path to replace is a hard link of the retained file (a clone onto itself must
+            # fail and be rolled back; the other commands treat it like any other path)
+            scns.append(dops.Scn(op, threads=1, hardlink=True))
         if thorough:
             scns.append(dops.Scn(op, threads=1, nolock=True))
             scns.append(dops.Scn(op, threads=2, nfiles=5, extra_groups=30))
